@@ -4,7 +4,7 @@ import os
 
 from . import common as C
 
-HOOK_COMMITS = ["1a663a7", "b348323", "04e4cdc", "80e0c7b", "d43a205"]
+HOOK_COMMITS = ["1a663a7", "b348323", "04e4cdc", "80e0c7b", "d43a205"]  # + guarded hook lines inside fix commits 1c74aec (dirsync events), 44433eb/e6f06c9 keep the sched points
 
 CHECKS = {
     "C01": ("model_checking", "TLC checks C01 as a theorem of the contract spec WalrusAPI (delivered = log[base+1..cur], append-only) over all calls/results within bounds; "
@@ -95,6 +95,12 @@ CHECKS.update({
             "consuming replay with a persisted cursor, is rejected with a 3-operation counterexample = known finding OCT-C21-CONSUMED-REPLAY); ~900 (thorough ~10.7k) TLC-generated and seeded random histories incl. clean/killed, same/new-process "
             "and mid-call-kill reopens executed on the real store, every trace validated by TLC against the contract; histories outside the finding's trigger must all conform.",
             "explicit TLA+ contract + design layer (TLC); spec->impl history replay; impl->spec ndjson trace validation; known-finding matcher + avoidance guard", "7 C21"),
+})
+
+CHECKS.update({
+    "C05": ("model_checking", "2-4 real threads (append, batch_append, read_next, batch_read on a shared topic, blocks holding 2-3 entries) are gated at the cfg(walrus_verif) scheduling points placed at the lock release/re-acquire sites; "
+            "a seeded controller decides which thread runs; TLC decides linearizability of every recorded call/ret history plus quiescent drain against the contract WalrusAPI (every acknowledged entry returned exactly once, producer order, batches contiguous).",
+            "controlled thread schedules through sched_point hooks + TLC linearizability check (Trace_WalrusConc)", "7 C05"),
 })
 
 DIST_NOTE = ("Shim world: the distributed-walrus/octopii files are compiled unmodified via #[path] against local shim crates (tokio: deterministic executor, bincode: 1.3 layout, "
